@@ -73,6 +73,8 @@ def _rename_params(fn, want):
     have = [a.arg for a in fn.args.args]
     if len(have) != len(want) or have == want:
         return {}
+    if sorted(have) == sorted(want):
+        return {}                      # same names in another order: a permutation, handled by _permute
     m = {h: w for h, w in zip(have, want) if h != w}
     used = {n.id for n in ast.walk(fn) if isinstance(n, ast.Name)} | {a.arg for a in ast.walk(fn) if isinstance(a, ast.arg)}
     # capture: a new name already in use inside the function for something else
@@ -86,9 +88,235 @@ def _rename_params(fn, want):
     return m
 
 
+def _permutation(fn, want):
+    """the parameter names are the catalogued ones in another order -> the order as written; None otherwise"""
+    have = [a.arg for a in fn.args.args]
+    if have != want and sorted(have) == sorted(want) and len(set(have)) == len(have) \
+            and not fn.args.vararg and not fn.args.kwarg and not fn.args.kwonlyargs:
+        return have
+    return None
+
+
+def _apply_permutations(trees, perms, S):
+    """put a permuted private signature back into the catalogued order: the def's parameter list (defaults follow
+    their parameters) and the positional arguments of every call of that function in its own module - direct,
+    `delayed(f)(..)`, `self.f(..)` / `<obj>.f(..)` for methods. A call with a starred argument is left alone only if
+    no positional argument follows the star; otherwise the permutation is abandoned for that function."""
+    for (rel, name), (have, fn) in perms.items():
+        want = None
+        for q, w in S[rel].items():
+            if q.split('.')[-1] == name and sorted(w) == sorted(have):
+                want = w
+        if want is None:
+            continue
+        is_method = bool(want) and want[0] == 'self'
+        tree = trees[rel]
+        calls = []
+        ok = True
+        for n in ast.walk(tree):
+            if not isinstance(n, ast.Call):
+                continue
+            f = n.func
+            if isinstance(f, ast.Call) and isinstance(f.func, ast.Name) and f.func.id == 'delayed' and f.args:
+                f = f.args[0]
+            nm = f.id if isinstance(f, ast.Name) else f.attr if isinstance(f, ast.Attribute) else None
+            if nm != name:
+                continue
+            if any(isinstance(a, ast.Starred) for a in n.args):
+                ok = False
+                break
+            calls.append(n)
+        if not ok:
+            continue
+        h = have[1:] if is_method else have
+        w = want[1:] if is_method else want
+        for n in calls:
+            by_name = {}
+            for p_, a in zip(h, n.args):
+                by_name[p_] = a
+            new_args = []
+            for p_ in w:
+                if p_ in by_name:
+                    new_args.append(by_name[p_])
+                else:
+                    break
+            rest = [p_ for p_ in w[len(new_args):] if p_ in by_name]
+            # parameters that were passed positionally but now come after a gap become keywords
+            n.args = new_args
+            for p_ in rest:
+                n.keywords.append(ast.keyword(arg=p_, value=by_name[p_]))
+        # the def itself
+        args = fn.args.args
+        nd = len(fn.args.defaults)
+        defaults = dict(zip([a.arg for a in args[len(args) - nd:]], fn.args.defaults))
+        by = {a.arg: a for a in args}
+        fn.args.args = [by[p_] for p_ in want]
+        # defaults must stay a suffix: if they do not, turn nothing (keep the order as written)
+        tail = [p_ for p_ in want if p_ in defaults]
+        if tail and want[len(want) - len(tail):] != tail:
+            fn.args.args = args
+            continue
+        fn.args.defaults = [defaults[p_] for p_ in tail]
+
+
+def _nt_fields(call):
+    if not (isinstance(call, ast.Call) and ast.unparse(call.func).split('.')[-1] == 'namedtuple' and len(call.args) >= 2):
+        return None
+    spec = call.args[1]
+    if isinstance(spec, ast.Constant) and isinstance(spec.value, str):
+        return spec.value.replace(',', ' ').split()
+    if isinstance(spec, (ast.List, ast.Tuple)) and all(isinstance(e, ast.Constant) and isinstance(e.value, str) for e in spec.elts):
+        return [e.value for e in spec.elts]
+    return None
+
+
+def erase_private_namedtuples(trees):
+    """A private (underscore) module-level namedtuple used as a record for several results is read as the plain
+    tuple it is: `return _N(a, b, c)` -> `return (a, b, c)`; a local bound once to a call and used only as
+    `x.<field of _N>` becomes a tuple unpack into `x__<field>` names. Values that escape (passed on, indexed,
+    compared as a whole) are left alone."""
+    notes = []
+    for rel, tree in trees.items():
+        nts = {}
+        for n in tree.body:
+            if isinstance(n, ast.Assign) and len(n.targets) == 1 and isinstance(n.targets[0], ast.Name) \
+                    and n.targets[0].id.startswith('_'):
+                f = _nt_fields(n.value)
+                if f:
+                    nts[n.targets[0].id] = f
+        if not nts:
+            continue
+        funcs = [n for n in ast.walk(tree) if isinstance(n, ast.FunctionDef)]
+        # which functions return which namedtuple (all value returns are constructor calls of one class)
+        returns_nt = {}
+        for fn in funcs:
+            rets = [r for r in ast.walk(fn) if isinstance(r, ast.Return) and r.value is not None]
+            kinds = set(r.value.func.id if isinstance(r.value, ast.Call) and isinstance(r.value.func, ast.Name) and r.value.func.id in nts
+                        else None for r in rets)
+            if rets and len(kinds) == 1 and None not in kinds:
+                returns_nt[fn.name] = kinds.pop()
+        for fn in funcs:
+            parents = {}
+            for n in ast.walk(fn):
+                for c in ast.iter_child_nodes(n):
+                    parents[id(c)] = n
+            for st in [x for x in ast.walk(fn) if isinstance(x, ast.Assign) and len(x.targets) == 1 and isinstance(x.targets[0], ast.Name)
+                       and isinstance(x.value, ast.Call)]:
+                x = st.targets[0].id
+                callee = st.value.func
+                cname = callee.id if isinstance(callee, ast.Name) else callee.attr if isinstance(callee, ast.Attribute) else None
+                nt = returns_nt.get(cname) or (cname if cname in nts else None)
+                if nt is None:
+                    continue
+                stores = [n for n in ast.walk(fn) if isinstance(n, ast.Name) and n.id == x and isinstance(n.ctx, ast.Store)]
+                loads = [n for n in ast.walk(fn) if isinstance(n, ast.Name) and n.id == x and isinstance(n.ctx, ast.Load)]
+                if len(stores) != 1 or not loads:
+                    continue
+                if not all(isinstance(parents.get(id(n)), ast.Attribute) and parents[id(n)].attr in nts[nt]
+                           and isinstance(parents[id(n)].ctx, ast.Load) for n in loads):
+                    continue
+                fields = nts[nt]
+                if any(('%s__%s' % (x, f_)) in {n.id for n in ast.walk(fn) if isinstance(n, ast.Name)} for f_ in fields):
+                    continue
+                for n in loads:
+                    a = parents[id(n)]
+                    new = ast.copy_location(ast.Name(id='%s__%s' % (x, a.attr), ctx=ast.Load()), a)
+                    pa = parents.get(id(a))
+                    for fld, old in ast.iter_fields(pa):
+                        if old is a:
+                            setattr(pa, fld, new)
+                        elif isinstance(old, list):
+                            for i, o in enumerate(old):
+                                if o is a:
+                                    old[i] = new
+                    parents[id(new)] = pa
+                if nt != cname:
+                    st.targets[0] = ast.copy_location(ast.Tuple(elts=[ast.Name(id='%s__%s' % (x, f_), ctx=ast.Store()) for f_ in fields],
+                                                                ctx=ast.Store()), st.targets[0])
+                else:
+                    # x = _N(a, b, c) directly: bind the fields one by one
+                    st.targets[0] = ast.copy_location(ast.Tuple(elts=[ast.Name(id='%s__%s' % (x, f_), ctx=ast.Store()) for f_ in fields],
+                                                                ctx=ast.Store()), st.targets[0])
+                notes.append('%s:%s `%s` read as the tuple of fields %s' % (rel, fn.name, x, fields))
+        # constructor calls with all fields given -> tuple displays, but only for a class none of whose values is still
+        # read through a field name somewhere in the module (a record that is passed around keeps its constructor; the
+        # analyses understand `<ctor call>.field` as well)
+        still = set()
+        for n in ast.walk(tree):
+            if isinstance(n, ast.Attribute) and isinstance(n.value, ast.Name):
+                for nm, flds in nts.items():
+                    if n.attr in flds:
+                        still.add(nm)
+        nts = {k: v for k, v in nts.items() if k not in still}
+        for n in ast.walk(tree):
+            for fld, old in list(ast.iter_fields(n)):
+                items = old if isinstance(old, list) else [old]
+                for i, o in enumerate(items):
+                    if isinstance(o, ast.Call) and isinstance(o.func, ast.Name) and o.func.id in nts \
+                            and not any(isinstance(a, ast.Starred) for a in o.args):
+                        fields = nts[o.func.id]
+                        vals = dict(zip(fields, o.args))
+                        for k in o.keywords:
+                            if k.arg in fields:
+                                vals[k.arg] = k.value
+                        if set(vals) != set(fields):
+                            continue
+                        tup = ast.copy_location(ast.Tuple(elts=[vals[f_] for f_ in fields], ctx=ast.Load()), o)
+                        if isinstance(old, list):
+                            old[i] = tup
+                        else:
+                            setattr(n, fld, tup)
+    return notes
+
+
+def inline_self_aliases(trees):
+    """`x = self.attr` / `x = self.attr = <new object>` with x bound once and self.attr not rebound afterwards in the
+    function: x is another name for the attribute; the attribute is what the rules look for"""
+    notes = []
+    for rel, tree in trees.items():
+        for fn in [n for n in ast.walk(tree) if isinstance(n, ast.FunctionDef) and n.args.args and n.args.args[0].arg == 'self']:
+            stores = {}
+            for n in ast.walk(fn):
+                if isinstance(n, ast.Name) and isinstance(n.ctx, (ast.Store, ast.Del)):
+                    stores[n.id] = stores.get(n.id, 0) + 1
+            attr_stores = {}
+            for n in ast.walk(fn):
+                if isinstance(n, ast.Attribute) and isinstance(n.ctx, ast.Store) and isinstance(n.value, ast.Name) and n.value.id == 'self':
+                    attr_stores[n.attr] = attr_stores.get(n.attr, 0) + 1
+            alias = {}
+            for st in list(fn.body):
+                if not isinstance(st, ast.Assign):
+                    continue
+                names = [t for t in st.targets if isinstance(t, ast.Name)]
+                attrs = [t for t in st.targets if isinstance(t, ast.Attribute) and isinstance(t.value, ast.Name) and t.value.id == 'self']
+                if len(names) == 1 and len(attrs) == 1 and len(st.targets) == 2 and stores.get(names[0].id) == 1 \
+                        and attr_stores.get(attrs[0].attr) == 1 and names[0].id not in [a.arg for a in fn.args.args]:
+                    alias[names[0].id] = attrs[0].attr
+                    st.targets = [attrs[0]]
+                elif len(st.targets) == 1 and len(names) == 1 and isinstance(st.value, ast.Attribute) and isinstance(st.value.value, ast.Name) \
+                        and st.value.value.id == 'self' and stores.get(names[0].id) == 1 and not attr_stores.get(st.value.attr) \
+                        and names[0].id not in [a.arg for a in fn.args.args]:
+                    alias[names[0].id] = st.value.attr
+                    fn.body[fn.body.index(st)] = ast.copy_location(ast.Pass(), st)
+            if not alias:
+                continue
+
+            class R(ast.NodeTransformer):
+                def visit_Name(s_, n):
+                    if isinstance(n.ctx, ast.Load) and n.id in alias:
+                        return ast.copy_location(ast.Attribute(value=ast.Name(id='self', ctx=ast.Load()), attr=alias[n.id], ctx=ast.Load()), n)
+                    return n
+            R().visit(fn)
+            ast.fix_missing_locations(fn)
+            notes.append('%s:%s aliases %s read as attributes of self' % (rel, fn.name, sorted(alias)))
+    return notes
+
+
 def canonicalise(trees):
     """trees: {relpath: ast.Module}; renames in place. -> list of human-readable notes"""
-    notes = []
+    notes = erase_private_namedtuples(trees)
+    notes += inline_self_aliases(trees)
+    perms = {}            # (relpath, function name) -> (have order, FunctionDef) for permuted signatures
     fn_renames = {}       # old function name -> canonical name (module-level workers), across modules
     kw_renames = {}       # canonical function name -> {old kw: new kw}
     S = sigs()
@@ -123,10 +351,16 @@ def canonicalise(trees):
                         notes.append('%s: private worker `%s` is treated as `%s`' % (rel, old, qual))
             if fn is None:
                 continue
+            perm = _permutation(fn, want)
+            if perm is not None:
+                perms[(rel, qual.split('.')[-1])] = (perm, fn)
+                notes.append('%s:%s parameters read in the catalogued order' % (rel, qual))
             m = _rename_params(fn, want)
             if m:
                 kw_renames.setdefault(qual.split('.')[-1], {}).update(m)
                 notes.append('%s:%s parameters %s read as %s' % (rel, qual, sorted(m), [m[k] for k in sorted(m)]))
+    if perms:
+        _apply_permutations(trees, perms, S)
     if fn_renames or kw_renames:
         for rel, tree in trees.items():
             for n in ast.walk(tree):
